@@ -46,4 +46,20 @@ def setsKey (k : Key) : Op → Bool
   | .set k' _ _ => decide (k' = k)
   | _ => false
 
+/-- calls that start or restart the time-to-live of `k`: every Set of `k`, and a Get of `k` with update-ttl -/
+def writesTtl (k : Key) : Op → Bool
+  | .set k' _ _ => decide (k' = k)
+  | .get k' o => decide (k' = k) && o.update.isSome
+  | _ => false
+
+/-- distinct keys: add one -/
+def addKey (k : Key) (S : List Key) : List Key := if k ∈ S then S else k :: S
+
+/-- the distinct keys addressed by a call sequence, added to `S` -/
+def touchedBy (S : List Key) : List Op → List Key
+  | [] => S
+  | op :: ops => touchedBy (match opKey op with
+      | some k => addKey k S
+      | none => S) ops
+
 end Nv.C05
